@@ -9,6 +9,10 @@
 (* fails (read / calculate) and then writes nothing and signals failure.   *)
 (* The reachable states are also the test matrix that the harness executes *)
 (* for real (Dump).                                                        *)
+(* hist: the command line always starts a fresh process ("cold"); the      *)
+(* client and the direct pipeline run inside a process that may already    *)
+(* have served other inputs ("warm").  The report is a function of the     *)
+(* input only, so the history must not show.                               *)
 (***************************************************************************)
 EXTENDS Integers, Sequences, TLC, Json
 
@@ -16,8 +20,10 @@ CONSTANTS Dirs, Inputs, FailingInputs, Dump
 Entries == {"cli", "client", "mc", "direct"}
 Args == {"none", "relative", "absolute"}
 
-VARIABLES pc, entry, arg, dir, input, created, signal, report
-vars == <<pc, entry, arg, dir, input, created, signal, report>>
+Hists == {"cold", "warm"}
+
+VARIABLES pc, entry, arg, dir, input, hist, created, signal, report
+vars == <<pc, entry, arg, dir, input, hist, created, signal, report>>
 
 (* where the report and its JSON side file go *)
 OutPath(e, a, d) ==
@@ -28,23 +34,24 @@ OutPath(e, a, d) ==
 
 Init == /\ pc = "start" /\ entry \in Entries /\ arg \in Args /\ dir \in Dirs /\ input \in Inputs
         /\ (entry # "cli" => arg = "none")
+        /\ hist \in Hists /\ (entry \in {"cli", "mc"} => hist = "cold")
         /\ created = {} /\ signal = "none" /\ report = "none"
 
 RunOk == /\ pc = "start" /\ input \notin FailingInputs
          /\ created' = {OutPath(entry, arg, dir).out, OutPath(entry, arg, dir).json}
          /\ report' = <<"report-of", input>>          \* a function of the input only
          /\ signal' = "ok" /\ pc' = "done"
-         /\ UNCHANGED <<entry, arg, dir, input>>
+         /\ UNCHANGED <<entry, arg, dir, input, hist>>
 RunFail == /\ pc = "start" /\ input \in FailingInputs
            /\ created' = {} /\ report' = "none"
            /\ signal' = IF entry = "cli" THEN "exit-nonzero" ELSE "raised"
            /\ pc' = "done"
-           /\ UNCHANGED <<entry, arg, dir, input>>
+           /\ UNCHANGED <<entry, arg, dir, input, hist>>
 Emit == /\ pc = "done" /\ pc' = "emitted"
-        /\ (Dump => PrintT(ToJson([entry |-> entry, arg |-> arg, dir |-> dir, input |-> input,
+        /\ (Dump => PrintT(ToJson([entry |-> entry, arg |-> arg, dir |-> dir, input |-> input, hist |-> hist,
                                    expect_files |-> IF input \in FailingInputs THEN <<>> ELSE <<OutPath(entry, arg, dir).out, OutPath(entry, arg, dir).json>>,
                                    expect_signal |-> signal])))
-        /\ UNCHANGED <<entry, arg, dir, input, created, signal, report>>
+        /\ UNCHANGED <<entry, arg, dir, input, hist, created, signal, report>>
 Next == RunOk \/ RunFail \/ Emit
 Spec == Init /\ [][Next]_vars
 
